@@ -14,6 +14,11 @@ history is replayed with the noise variances 0, 0.25 and 1 and judged by
   (4) use_same_signal: ONE signal draw in the observed call log and bit-equal noise-free data in
       all simulations; default: one signal draw per simulation and different noise-free data
   (5) data(s2) - data(0) == sqrt(s2) * E, the same E for s2 = 0.25 and s2 = 1, E != 0.
+      The noise term data(noise) - data(0) (same draws, same signal) also equals the reference
+      sqrt(noise) * Phi^-1(u) [x Cholesky kernels of the channel / trial covariance, either
+      triangular factor admitted] built from the menu array u the library received, in every
+      configuration; block G replays each draw history at every signal in {0, 0.25, 1, 4} x noise
+      in {0, 0.25, 1, 2.25}: the noise term must not depend on the signal strength at all.
   (6) consistency of the two design forms of the statement: a 1-d condition vector and the
       indicator design matrix that says the same give the same data under the same replayed draw
       history (model pattern k belongs to the k-th smallest condition LABEL, whatever the trial
@@ -56,6 +61,9 @@ RULE = ('Configurations = (model RDM, n_channel - n_cond, n_part, (n_sim, use_sa
         '(embeddable or not) and the inputs outside the preconditions; block F: hand-made condition vectors with the '
         'conditions in every one of the n_cond! orders within the first partition x (n_part, order of '
         'the later partitions) in {(1,same),(2,same),(2,reversed),(3,rotated)} x label map; '
+        'block G: one asymmetric RDM (thorough 3) x 4 '
+        '(n_part, n_channel) layouts x design x (n_sim, same) x noise_cov x trial covariance (where '
+        'n_obs == n_channel), each draw history replayed at 4 signal strengths x 4 noise variances; '
         'block E: the RDM of EVERY categorical model (one per set partition of the conditions into >= 2 categories, distance 0 '
         'within / 1 between); block D: make_design for all '
         'n_cond<=6 x n_part<=5. For each configuration EVERY combination of menu answers (3 per '
@@ -76,7 +84,7 @@ TOL_RDM = 1e-5
 TOL_NOISE = 1e-9
 TOLERANCES = {'rdm (exact-signal construction floors LDL pivots at 1e-15; errors ~1e-7, heavy tail for '
               'n_channel == n_cond)': TOL_RDM,
-              'noise scaling': TOL_NOISE, 'condition vector vs equivalent design matrix': 1e-12, 'same-signal equality': 'bit-exact',
+              'noise scaling': TOL_NOISE, 'noise term vs reference / across signal strengths': TOL_NOISE, 'condition vector vs equivalent design matrix': 1e-12, 'same-signal equality': 'bit-exact',
               'fresh-signal difference': '> 1e-6 relative'}
 BOUNDS = {
     'quick': {'grid (block A)': 'n_cond 2..4, d<=2: all 90 + 756 + 6642 configurations = 6 + 55 + 561 distinct '
@@ -94,6 +102,8 @@ BOUNDS = {
                          'exact option off on the representatives',
               'block E': 'categorical RDMs of all set partitions (>= 2 blocks) of 3, 4, 5 conditions = 4 + 14 + 51, '
                          'x 3 n_channel offsets ((n_sim=2, fresh) for every 4th RDM when n_cond=5)',
+              'block G': 'signal menu [0, 0.25, 1, 4] x noise menu [0, 0.25, 1, 2.25] per draw history; 1 RDM x 4 '
+                         'layouts x noise_cov x trial_cov; (n_sim=2, fresh) for half of the layouts',
               'block F': 'all 2! + 3! + 4! condition orders x 4 partition layouts on 3 asymmetric RDMs',
               'make_design': 'n_cond 1..6 x n_part 1..5'},
     'thorough': {'grid (block A)': 'n_cond 2..5, d<=2: all 90 + 756 + 6642 + 59292 configurations = 6 + 55 + '
@@ -111,12 +121,16 @@ BOUNDS = {
                             'covariance / exact option off on the representatives x design',
                  'block E': 'categorical RDMs of all set partitions (>= 2 blocks) of 3..6 conditions = 4 + 14 + 51 '
                             '+ 202, x 3 n_channel offsets',
+                 'block G': 'signal menu [0, 0.25, 1, 4] x noise menu [0, 0.25, 1, 2.25] per draw history; 3 RDMs x '
+                            '4 layouts x noise_cov x trial_cov x all (n_sim, same)',
                  'block F': 'all 2! + 3! + 4! + 5! condition orders x 4 partition layouts on 4 asymmetric RDMs',
                  'make_design': 'n_cond 1..6 x n_part 1..5'},
 }
 
 SIGNALS = [0.5, 1.0, 2.0]
 NOISES = [0.25, 1.0]                      # replayed in addition to noise 0
+SIGNAL_MENU = [1.0, 0.0, 0.25, 4.0]       # block G: every draw history at every signal strength ...
+NOISE_MENU = [0.25, 1.0, 2.25]            # ... and every noise variance (plus 0)
 DESIGNS = ['vector', 'matrix', 'matrix_rot']
 SIMS = [(1, False), (1, True), (2, True), (2, False)]
 OFFS = [0, 1, 3]
@@ -147,6 +161,11 @@ ORDER_REPS = {
                  [(0, 0), (1, 0), (2, 2), (0, 2)],
                  [(0, 0), (1, 0), (2, 2), (0, 2), (2, 1)]],
 }
+# block G: (n_part, n_channel - n_cond as a multiple of n_cond + constant); the first two layouts
+# have n_obs == n_channel, the only shape for which make_dataset accepts a trial covariance
+NOISE_REPS = {'quick': [[(0, 0), (1, 0), (2, 2)]],
+              'thorough': [[(0, 0), (1, 2)], [(0, 0), (1, 0), (2, 2)], [(0, 0), (1, 0), (2, 2), (0, 2)]]}
+NOISE_LAYOUTS = [(1, 0, 0), (2, 1, 0), (2, 0, 1), (3, 0, 3)]        # (n_part, a, b): off = a*n_cond + b
 ORDER_PARTS = [(1, 'same'), (2, 'same'), (2, 'rev'), (3, 'rot')]   # (n_part, order of later partitions)
 LABELS = ['index', 'affine']                                      # label of condition c: c | 10 + 3c
 
@@ -189,7 +208,7 @@ def _digits(t):
 
 
 def _cfg(v, off, t=None, sims=None, n_part=None, signal=None, design=None, ncov=None,
-         exact=True, scov=False, order=None, pvar=None, labels=None):
+         exact=True, scov=False, order=None, pvar=None, labels=None, tcov=False):
     if t is not None:
         a, b, c, d, e = _digits(t)
         sims, signal, ncov = SIMS[a], SIGNALS[c], NCOVS[e]
@@ -200,6 +219,8 @@ def _cfg(v, off, t=None, sims=None, n_part=None, signal=None, design=None, ncov=
            'exact': bool(exact), 'scov': bool(scov)}
     if design == 'vector_order':
         cfg.update(order=[int(x) for x in order], pvar=pvar, labels=labels)
+    if tcov:
+        cfg['tcov'] = True
     return cfg
 
 
@@ -239,6 +260,11 @@ def shards(tier, seed):
         n_perm = len(list(itertools.permutations(range(len(pts)))))
         for lo in range(0, n_perm, 6):
             out.append({'block': 'F', 'rep': r, 'lo': lo, 'hi': min(n_perm, lo + 6)})
+    # G: the noise term at every signal strength x noise variance of the menus
+    for r in range(len(NOISE_REPS[tier])):
+        for k in range(len(NOISE_LAYOUTS)):
+            for ncov in NCOVS:
+                out.append({'block': 'G', 'rep': r, 'layout': k, 'ncov': ncov})
     # D: make_design
     out.append({'block': 'D'})
     return out
@@ -290,6 +316,19 @@ def _shard_configs(shard, tier):
                 t = 37 * r + 55 * k + 11 * shard['rep']
                 yield _cfg(v, OFFS[(r + k) % 3], t=_thin(t, r + k, 4), n_part=n_part,
                            design='vector_order', order=perms[r], pvar=pvar, labels=LABELS[(r + k // 2) % 2])
+    elif blk == 'G':
+        pts = NOISE_REPS[tier][shard['rep']]
+        v = ref.sq_dists(pts)
+        n_part, a, b = NOISE_LAYOUTS[shard['layout']]
+        off = a * len(pts) + b
+        t = shard['layout'] + 2 * NCOVS.index(shard['ncov']) + shard['rep']
+        for tcov in ([False, True] if len(pts) * n_part == len(pts) + off else [False]):
+            for sims in SIMS:
+                if sims == (2, False) and not big and (tcov or shard['layout'] % 2 == 1):
+                    continue        # quick: the 81-history option for half of the layouts
+                t += 1
+                yield _cfg(v, off, sims=sims, n_part=n_part, signal=1.0, design=DESIGNS[t % 3],
+                           ncov=shard['ncov'], tcov=tcov)
     elif blk == 'C' and shard['what'] == 'alphabet':
         allv = list(itertools.product((0.0, 1.0, 2.0), repeat=shard['m']))
         for r in range(shard['lo'], min(len(allv), shard['hi'])):
@@ -375,13 +414,16 @@ class _Inputs:
         self.ncov = None
         if cfg['ncov'] == 'spd':
             self.ncov = np.round(spd(rng_for(seed, 'ncov', self.n_channel), self.n_channel), 4)
+        self.tcov = None
+        if cfg.get('tcov'):
+            self.tcov = np.round(spd(rng_for(seed, 'tcov', self.n_obs), self.n_obs), 4)
         self.scov = None
         if cfg['scov']:
             self.scov = np.round(spd(rng_for(seed, 'scov', self.n_channel), self.n_channel), 4)
         self.zero_rdm = not np.any(self.v)
         self.embeddable = ref.embeddable(cfg['v'])
 
-    def simulate(self, env, noise, cond_vec=None):
+    def simulate(self, env, noise, cond_vec=None, signal=None):
         """one real make_dataset call under the environment env; returns (datasets, call log)"""
         from rsatoolbox.simulation import sim
         cfg = self.cfg
@@ -390,9 +432,10 @@ class _Inputs:
             ds = sim.make_dataset(
                 self.model, self.theta, (self.cond_vec if cond_vec is None else cond_vec).copy(),
                 n_channel=self.n_channel,
-                n_sim=cfg['n_sim'], signal=cfg['signal'], noise=noise,
+                n_sim=cfg['n_sim'], signal=cfg['signal'] if signal is None else signal, noise=noise,
                 signal_cov_channel=None if self.scov is None else self.scov.copy(),
                 noise_cov_channel=None if self.ncov is None else self.ncov.copy(),
+                noise_cov_trial=None if self.tcov is None else self.tcov.copy(),
                 use_exact_signal=cfg['exact'], use_same_signal=cfg['same'])
         return ds, [(c[0], tuple(c[1])) for c in rng.calls]
 
@@ -402,9 +445,9 @@ def _menu_for(seed):
     return _Menu(seed, N_MENU)
 
 
-def _run_guarded(inp, env, noise, cond_vec=None):
+def _run_guarded(inp, env, noise, cond_vec=None, signal=None):
     try:
-        ds, calls = inp.simulate(env, noise, cond_vec)
+        ds, calls = inp.simulate(env, noise, cond_vec, signal)
         return {'ds': ds, 'calls': calls}
     except (HarnessError, KeyboardInterrupt, SystemExit, MemoryError):
         raise
@@ -418,6 +461,106 @@ def _sigclass(cfg):
 
 def _data(ds):
     return [np.array(d.measurements, dtype=float) for d in ds]
+
+
+def _want_calls(inp):
+    cfg = inp.cfg
+    shape_s = (inp.n_cond, max(inp.n_cond, inp.n_channel))
+    shape_n = (inp.n_obs, inp.n_channel)
+    if cfg['same']:
+        return [('uniform', shape_s)] + [('uniform', shape_n)] * cfg['n_sim']
+    return [('uniform', shape_s), ('uniform', shape_n)] * cfg['n_sim']
+
+
+def _noise_draws(inp, choices, got_calls):
+    """the menu arrays the library received for its noise draws (one per simulation), identified
+    from the observed call log; None when the log is not the expected one (reported by oracle 4)"""
+    want = _want_calls(inp)
+    if got_calls != want or len(choices) != len(want):
+        return None
+    pos = [1 + i for i in range(inp.cfg['n_sim'])] if inp.cfg['same'] else \
+        [2 * i + 1 for i in range(inp.cfg['n_sim'])]
+    menu = _menu_for(inp.seed)
+    return [menu((inp.n_obs, inp.n_channel), choices[p], p) for p in pos]
+
+
+def _judge_noise_term(inp, term, u, noise, signal, ctx, case, i):
+    """noise term of simulation i (data with noise - data without, same draws, same signal)
+    against the reference built from the menu draw u; returns the relative deviation"""
+    cands = ref.noise_term_candidates(u, noise, inp.ncov, inp.tcov)
+    dev = min(maxreldev(term, c) for c in cands)
+    ctx.dev('noise-term-vs-reference', dev)
+    if dev > TOL_NOISE:
+        kern = 'noise_cov=%s%s' % (inp.cfg['ncov'], ',trial_cov' if inp.tcov is not None else '')
+        ctx.fail('make_dataset|%s|noise-term-differs-from-reference' % kern, case,
+                 'simulation %d, signal %g, noise %g: data(noise) - data(0) under the same draws differs '
+                 'from sqrt(noise) * Phi^-1(u) [x kernels] by %.3g (relative)' % (i, signal, noise, dev))
+    return dev
+
+
+def _evaluate_noise(inp, choices, ctx, case, runs0=None):
+    """block G: ONE draw history replayed at every signal strength x noise variance of the menus;
+    the noise term data(signal, noise) - data(signal, 0) must be the same for every signal, scale
+    with sqrt(noise), and equal the reference built from the menu draws"""
+    cfg = inp.cfg
+    sc = _sigclass(cfg)
+    kern = 'noise_cov=%s%s' % (cfg['ncov'], ',trial_cov' if inp.tcov is not None else '')
+    runs = {}
+    for sg in SIGNAL_MENU:
+        for nz in [0.0] + NOISE_MENU:
+            if runs0 is not None and sg == cfg['signal'] and nz == 0.0:
+                runs[(sg, nz)] = runs0
+            else:
+                runs[(sg, nz)] = _run_guarded(inp, choice.Env(choices), nz, signal=sg)
+            r = runs[(sg, nz)]
+            if 'exc' in r:
+                with ctx.guard('make_dataset|%s,%s,same=%s' % (sc, kern, cfg['same']), case):
+                    raise r['exc']
+                return
+            if len(r['ds']) != cfg['n_sim'] or any(
+                    np.shape(d.measurements) != (inp.n_obs, inp.n_channel) for d in r['ds']):
+                ctx.fail('make_dataset|%s|data-shape' % sc, case, 'signal %g noise %g' % (sg, nz))
+                return
+    first = runs[(SIGNAL_MENU[0], 0.0)]['calls']
+    if any(r['calls'] != first for r in runs.values()):
+        raise HarnessError('the draws requested by make_dataset depend on signal / noise: %r' % (
+            {k: r['calls'] for k, r in runs.items()},))
+    us = _noise_draws(inp, choices, first)
+    if us is None:
+        ctx.fail('make_dataset|use_same_signal=%s,n_sim=%d|draw-count' % (cfg['same'], cfg['n_sim']), case,
+                 'uniform draws %r, expected %r' % (first, _want_calls(inp)))
+    term = {}
+    for sg in SIGNAL_MENU:
+        clean = _data(runs[(sg, 0.0)]['ds'])
+        if sg == 0.0 and any(np.any(c != 0) for c in clean):
+            ctx.fail('make_dataset|%s|data-at-zero-signal-and-noise-not-zero' % sc, case, '')
+        for nz in NOISE_MENU:
+            noisy = _data(runs[(sg, nz)]['ds'])
+            term[(sg, nz)] = [noisy[i] - clean[i] for i in range(cfg['n_sim'])]
+    s0 = SIGNAL_MENU[0]
+    n0 = NOISE_MENU[-1] if 1.0 not in NOISE_MENU else 1.0
+    for i in range(cfg['n_sim']):
+        for nz in NOISE_MENU:
+            for sg in SIGNAL_MENU:
+                if sg != s0:
+                    dev = maxreldev(term[(sg, nz)][i], term[(s0, nz)][i])
+                    ctx.dev('noise-term-across-signals', dev)
+                    if dev > TOL_NOISE:
+                        ctx.fail('make_dataset|any-noise-kernel|noise-term-depends-on-signal', case,
+                                 'simulation %d, noise %g: data(noise) - data(0) at signal %g and at signal '
+                                 '%g (same draws) differ by %.3g (relative)' % (i, nz, sg, s0, dev))
+                if nz != n0:
+                    dev = maxreldev(term[(sg, nz)][i] / np.sqrt(nz), term[(sg, n0)][i] / np.sqrt(n0))
+                    ctx.dev('noise-scaling', dev)
+                    if dev > TOL_NOISE:
+                        ctx.fail('make_dataset|%s|noise-not-sqrt-scaled' % kern, case,
+                                 'simulation %d, signal %g: noise terms for variance %g and %g are not in '
+                                 'the ratio of the square roots (%.3g relative)' % (i, sg, nz, n0, dev))
+                if us is not None:
+                    _judge_noise_term(inp, term[(sg, nz)][i], us[i], nz, sg, ctx, case, i)
+        if not np.any(np.abs(term[(s0, n0)][i]) > 1e-6):
+            ctx.fail('make_dataset|%s|noise-term-absent' % kern, case, 'simulation %d' % i)
+    ctx.outcome(('noise', kern, tuple(first), tuple(np.round(term[(s0, n0)][0].ravel()[:3], 6).tolist())))
 
 
 def _evaluate(inp, choices, ctx, case, runs0=None):
@@ -550,6 +693,13 @@ def _evaluate(inp, choices, ctx, case, runs0=None):
         if not np.any(np.abs(e[b][i]) > 1e-6):
             ctx.fail(sig5 + '|noise-term-absent', case,
                      'data simulated with noise variance %g equal the noise-free data' % b)
+    # the noise term equals the reference built from the menu draw the library received, at
+    # whatever signal strength this configuration has (so it cannot depend on the signal)
+    us = _noise_draws(inp, choices, got_calls)
+    if us is not None:
+        for s2 in NOISES:
+            for i in range(n_sim):
+                _judge_noise_term(inp, e[s2][i] * np.sqrt(s2), us[i], s2, cfg['signal'], ctx, case, i)
 
     # ---- (1) RDM of the exact-signal, zero-noise data
     reason = None
@@ -671,9 +821,12 @@ def run_shard(shard, ctx):
     for cfg in _shard_configs(shard, ctx.tier):
         inp = _Inputs(cfg, ctx.seed)
         for env, obs in choice.explore(lambda e: _run_guarded(inp, e, 0.0), bound=None, stats=stats):
-            case = dict(cfg, kind='sim', choices=env.choices)
+            case = dict(cfg, kind='noise' if shard['block'] == 'G' else 'sim', choices=env.choices)
             ctx.case(case, nontrivial=not inp.zero_rdm)
-            _evaluate(inp, env.choices, ctx, case, runs0=obs)
+            if shard['block'] == 'G':
+                _evaluate_noise(inp, env.choices, ctx, case, runs0=obs)
+            else:
+                _evaluate(inp, env.choices, ctx, case, runs0=obs)
             if first and 'ds' in obs:
                 # determinism guard: the first execution of every shard is replayed bit for bit
                 again = _run_guarded(inp, choice.Env(env.choices), 0.0)
@@ -690,7 +843,10 @@ def run_case(case, ctx):
         _design_case(case, ctx)
         return
     cfg = {k: case[k] for k in ('v', 'off', 'n_part', 'n_sim', 'same', 'signal', 'design', 'ncov',
-                                'exact', 'scov', 'order', 'pvar', 'labels') if k in case}
+                                'exact', 'scov', 'order', 'pvar', 'labels', 'tcov') if k in case}
     inp = _Inputs(cfg, ctx.seed)
     ctx.case(case, nontrivial=not inp.zero_rdm)
-    _evaluate(inp, list(case['choices']), ctx, case)
+    if case.get('kind') == 'noise':
+        _evaluate_noise(inp, list(case['choices']), ctx, case)
+    else:
+        _evaluate(inp, list(case['choices']), ctx, case)
